@@ -96,10 +96,35 @@ def seeds(tier):
     n1, e1 = _cfi_k4(True)
     S["cfi-k4"] = (n0, e0)
     S["cfi-k4-twisted"] = (n1, e1)
+    # multi-component seeds: a cage plus as many isolated atoms as it has independent rings (bonds == atoms - 1)
+    for base, extra in (("K4", 3), ("prism", 4), ("K33", 4), ("cube", 5)):
+        n0, e0 = S[base]
+        S[f"{base}+{extra} atoms"] = (n0 + extra, list(e0))
+    n0, e0 = S["prism"]
+    S["prism+2 bonded pairs"] = (n0 + 4, list(e0) + [(n0, n0 + 1), (n0 + 2, n0 + 3)])
+    # hetero cages/rings closed by bridging hydrogens
+    S["heterocubane (LiH)4"] = S["cube"]
+    hp = [(i, (i + 1) % 6) for i in range(6)] + [(6 + i, 6 + (i + 1) % 6) for i in range(6)] + [(i, i + 6) for i in range(6)]
+    S["hexagonal prism (LiH)6"] = (12, hp)
+    S["cyclo-(BeH2)4"] = (12, [(i, (i + 1) % 8) for i in range(8)] + [(0, 8), (2, 9), (4, 10), (6, 11)])
     if tier == "quick":
         for k in ("cycle11", "cycle12", "K8", "cycle9", "cycle10"):
             S.pop(k, None)
     return S
+
+
+LI = ("Li", None, None)
+BE = ("Be", None, None)
+HY = ("H", None, None)
+BASE = {
+    "heterocubane (LiH)4": [LI, HY, LI, HY, HY, LI, HY, LI],
+    "hexagonal prism (LiH)6": [LI, HY, LI, HY, LI, HY, HY, LI, HY, LI, HY, LI],
+    "cyclo-(BeH2)4": [BE, HY, BE, HY, BE, HY, BE, HY, HY, HY, HY, HY],
+}
+
+
+def base_colours(name, n):
+    return list(BASE.get(name, [C] * n))
 
 
 # groups of seeds among which string equality must coincide with isomorphism
@@ -107,20 +132,27 @@ NEAR_MISS_GROUPS = [["cycle6", "2xC3", "prism", "K33"], ["cycle8", "2xC4", "cube
                     ["shrikhande", "rook4x4"], ["cfi-k4", "cfi-k4-twisted"], ["petersen", "cycle10"]]
 
 
-def placements(n, maxlabels):
-    """All colourings with <= maxlabels labelled atoms (each label kind)."""
-    yield tuple([C] * n)
-    for lab in LABELS:
+def _lab(col, kind):
+    """Label an atom of colour `col`: kind 0 = isotope, kind 1 = radical."""
+    el = col[0]
+    return (el, {"C": 13, "H": 2, "Li": 6, "Be": 10}.get(el, 99), None) if kind == 0 else (el, None, 2)
+
+
+def placements(n, maxlabels, base=None):
+    """All colourings with <= maxlabels labelled atoms (each label kind) on top of the base colouring."""
+    base = list(base) if base else [C] * n
+    yield tuple(base)
+    for kind in (0, 1):
         for i in range(n):
-            c = [C] * n
-            c[i] = lab
+            c = list(base)
+            c[i] = _lab(base[i], kind)
             yield tuple(c)
     if maxlabels >= 2:
         for i, j in combinations(range(n), 2):
-            for la, lb in ((LABELS[0], LABELS[0]), (LABELS[0], LABELS[1]), (LABELS[1], LABELS[0]), (LABELS[1], LABELS[1])):
-                c = [C] * n
-                c[i] = la
-                c[j] = lb
+            for ka, kb in ((0, 0), (0, 1), (1, 0), (1, 1)):
+                c = list(base)
+                c[i] = _lab(base[i], ka)
+                c[j] = _lab(base[j], kb)
                 yield tuple(c)
 
 
@@ -367,7 +399,7 @@ def run_all(rep, prop, tier):
     jobs = []
     for name, (n, edges) in S.items():
         ml = maxlabels if n <= 12 else 1
-        pl = list(placements(n, ml))
+        pl = list(placements(n, ml, base_colours(name, n)))
         csz = max(1, min(len(pl), 600 // max(1, n * n // 4)))
         for c0 in range(0, len(pl), csz):
             jobs.append((props, name, n, edges, pl[c0:c0 + csz], n <= 16))
@@ -396,7 +428,7 @@ def run_all(rep, prop, tier):
                         o = owner[s]
                         n1, e1 = S[o[0]]
                         n2, e2 = S[name]
-                        if not iso.isomorphic([0] * n1, adj(n1, e1), [0] * n2, adj(n2, e2)):
+                        if not iso.isomorphic(base_colours(o[0], n1), adj(n1, e1), base_colours(name, n2), adj(n2, e2)):
                             rep.violation("C02|zoo|collision-across-seeds", {
                                 "kind": "e1-pair-differ", "n": n2, "molfile_a": o[1], "molfile_b": text, "tucan": s,
                                 "summary": f"non-isomorphic skeletons {o[0]} and {name} share {s[:100]!r}"})
